@@ -689,6 +689,7 @@ func hoSchedule(r *rand.Rand) []string {
 			if !wire {
 				cand = append(cand, "foreign")
 			}
+			cand = append(cand, "event")
 		}
 		if len(cand) == 0 {
 			break
@@ -731,6 +732,9 @@ func c03Handover(c *Ctx) {
 		{"setCrypt", "writeResp", "readStart", "foreign", "readDone"},
 		{"writeResp", "readStart", "foreign", "readDone"},
 		{"readStart", "foreign", "readDone"},
+		{"setCrypt", "event", "writeResp", "peerSends", "readStart", "readDone"},
+		{"event", "setCrypt", "event", "writeResp", "event"},
+		{"event", "writeResp", "event"},
 	}
 	nfixed := len(schedules)
 	for i := 0; i < c.Pick(60, 1500); i++ {
@@ -791,11 +795,16 @@ func c03Handover(c *Ctx) {
 				c.Violate("a plaintext request is not handed on unchanged", id, ops, hx(finish), hx(got))
 			})
 		}
+		answerChunks := 0
+		conn.SetServing(true) // net/http: the request was read, the connection is active until the response is written
+		eventMsg := []byte("EVENT/1.0 200 OK\r\nContent-Type: application/hap+json\r\nContent-Length: 49\r\n\r\n{\"characteristics\":[{\"aid\":1,\"iid\":10,\"value\":42}]}")
 		for _, op := range rest {
 			if raw.isClosed() {
 				break
 			}
 			switch op {
+			case "event":
+				conn.WriteEvent(eventMsg)
 			case "readStart":
 				go func() {
 					var one [1]byte // net/http's background read asks for one byte
@@ -810,15 +819,17 @@ func c03Handover(c *Ctx) {
 				sess.SetCryptographer(sec)
 			case "writeResp":
 				raw.mu.Lock()
-				raw.out = nil
+				base := len(raw.out)
 				raw.mu.Unlock()
 				conn.Write(answer)
 				raw.mu.Lock()
 				var all []byte
-				for _, o := range raw.out {
+				for _, o := range raw.out[base:] {
 					all = append(all, o...)
 				}
+				answerChunks = len(raw.out) - base
 				raw.mu.Unlock()
+				conn.SetServing(false) // the response is out: the connection is idle, events that were kept back are written
 				if bytes.Equal(all, answer) {
 					resp = "plain"
 				} else {
@@ -875,8 +886,22 @@ func c03Handover(c *Ctx) {
 			closed = 1
 		}
 		verified := sess.Encrypter() != nil || sess.Decrypter() != nil
-		impl := fmt.Sprintf("resp=%s delivered=%s closed=%d foreign=%d", resp, delivered, closed, foreign)
-		model := c.Model1("handover run 2 " + strings.Join(ops, " "))
+		// every Write reaches the scripted connection as one piece: what is not the answer is an event
+		raw.mu.Lock()
+		evOut := len(raw.out) - answerChunks
+		raw.mu.Unlock()
+		nEv := 0
+		for _, op := range ops {
+			if op == "event" {
+				nEv++
+			}
+		}
+		impl := fmt.Sprintf("resp=%s delivered=%s closed=%d foreign=%d events=%d", resp, delivered, closed, foreign, evOut)
+		model := c.Model1("handover run 3 " + strings.Join(ops, " "))
+		if p := strings.Index(model, " queued="); p >= 0 { // what is still kept back is not observable from outside
+			model = model[:p]
+		}
+		_ = nEv
 		raw.Close()
 		mu.Lock()
 		defer mu.Unlock()
